@@ -2701,6 +2701,7 @@ func doCompositeBinStruct(n *node, hasType bool) {
 
 	frameIndex := n.findex
 	l := n.level
+	inPlace := isAssignDest(n)
 
 	n.exec = func(f *frame) bltn {
 		s := reflect.New(typ).Elem()
@@ -2711,11 +2712,20 @@ func doCompositeBinStruct(n *node, hasType bool) {
 		switch {
 		case d.Kind() == reflect.Ptr:
 			d.Set(s.Addr())
+		case inPlace && d.CanSet():
+			d.Set(s)
 		default:
 			getFrame(f, l).data[frameIndex] = s
 		}
 		return next
 	}
+}
+
+// isAssignDest returns true if the result of composite literal n is written
+// to the location of an existing variable (plain assignment, not a definition).
+// The variable must then be updated in place, as pointers to it may exist.
+func isAssignDest(n *node) bool {
+	return n.anc != nil && n.anc.kind == assignStmt && n.anc.action == aAssign
 }
 
 func compositeBinStruct(n *node)       { doCompositeBinStruct(n, true) }
@@ -2771,6 +2781,7 @@ func doComposite(n *node, hasType bool, keyed bool) {
 	frameIndex := n.findex
 	l := n.level
 	rt := typ.TypeOf()
+	inPlace := isAssignDest(n)
 
 	n.exec = func(f *frame) bltn {
 		a := reflect.New(rt).Elem()
@@ -2786,6 +2797,8 @@ func doComposite(n *node, hasType bool, keyed bool) {
 				d.Set(reflect.ValueOf(valueInterface{n, a}))
 				break
 			}
+			d.Set(a)
+		case inPlace && d.CanSet():
 			d.Set(a)
 		default:
 			getFrame(f, l).data[frameIndex] = a
